@@ -4,6 +4,7 @@
     to it, and that the per-context state really is disjoint, is tied by the pthread/TSan harness, not proved. *)
 From Coq Require Import String List ZArith Bool.
 From ChibiV Require Import C13.Defs C13.Allowed C13.Model C13.Proofs C13.Inventory Gen.C13_Statics C13.Res C13.ResProofs.
+From ChibiV Require C13.Sig C13.SigProofs C13.Tab C13.TabProofs.
 Import ListNotations.
 
 (** generated obligation: every writable object of every shared object of the current build is on the reviewed
@@ -133,3 +134,122 @@ Theorem destroy_is_local_resources : forall rel pi j cj,
   (forall r, ropen w' r <> ropen w r -> In (r, true) (holds cj)).
 Proof. exact ResProofs.destroy_is_local_resources. Qed.
 Print Assumptions destroy_is_local_resources.
+
+(* ------------------------------------------------------------------ round 3: per-context tables (model C13/Tab.v) *)
+Module T.
+Import C13.Tab C13.TabProofs.
+
+(** after ANY interleaving of creations, type registrations, symbol internings, global definitions, library loads and
+    destroys of ANY number of parent-less contexts: the heaps of distinct live contexts share no address, and every
+    pointer stored in a context's tables (globals vector, symbol table + buckets + symbols, type array, type objects,
+    their names and class-precedence vectors and the entries of those, environment cells, module entries) designates
+    an object of that same context's heaps; cpl entries are types of the same table; no symbol is interned twice *)
+Theorem tables_invariant : forall ncore pi, 0 < ncore -> TInv (trun ncore pi tw0).
+Proof. exact TabProofs.tables_invariant. Qed.
+Print Assumptions tables_invariant.
+
+Theorem table_op_is_local : forall ncore w o j, j <> who o -> tcx (fst (tstep ncore w o)) j = tcx w j.
+Proof. exact TabProofs.op_is_local. Qed.
+Print Assumptions table_op_is_local.
+
+(** registering a type in i changes no table of j; the id is the length of i's OWN table (ids are per context) *)
+Theorem register_type_local : forall ncore w i nm p c, tcx w i = Some c ->
+  let w' := fst (tstep ncore w (TReg i nm p)) in
+  snd (tstep ncore w (TReg i nm p)) = XId (length (types c)) /\
+  (forall j, j <> i -> tcx w' j = tcx w j) /\
+  exists c', tcx w' i = Some c' /\ length (types c') = S (length (types c)) /\
+    (exists t, nth_error (types c') (length (types c)) = Some t /\ ty_name t = nm) /\
+    (forall n, n < length (types c) -> nth_error (types c') n = nth_error (types c) n).
+Proof. exact TabProofs.register_type_local. Qed.
+Print Assumptions register_type_local.
+
+(** the fact that makes a process-wide cache of a type id wrong: the same C type can have different ids in two contexts *)
+Theorem same_type_different_ids : forall ncore, 0 < ncore ->
+  exists pi i j nm ci cj ni nj ti tj, i <> j /\
+    tcx (trun ncore pi tw0) i = Some ci /\ tcx (trun ncore pi tw0) j = Some cj /\
+    nth_error (types ci) ni = Some ti /\ nth_error (types cj) nj = Some tj /\
+    ty_name ti = nm /\ ty_name tj = nm /\ ni <> nj.
+Proof. exact TabProofs.same_type_different_ids. Qed.
+Print Assumptions same_type_different_ids.
+
+Theorem intern_local : forall ncore w i s c, TInv w -> tcx w i = Some c ->
+  let w' := fst (tstep ncore w (TIntern i s)) in
+  (forall j, j <> i -> tcx w' j = tcx w j) /\
+  exists c' y, tcx w' i = Some c' /\ find_sym s (syms c') = Some y /\ sy_bucket y = bucket_of s /\
+    owns c' (sy_addr y) /\
+    (forall j cj, j <> i -> tcx w' j = Some cj -> ~ owns cj (sy_addr y)) /\
+    snd (tstep ncore w (TIntern i s)) =
+      XSym (bucket_of s) (match find_sym s (syms c) with Some _ => false | None => true end) /\
+    (forall y0, find_sym s (syms c) = Some y0 ->
+       w' = mk_tworld (brk w) (tupd (tcx w) i (Some c)) /\ c' = c /\ y = y0).
+Proof. exact TabProofs.intern_local. Qed.
+Print Assumptions intern_local.
+
+(** destroy_leaves_others_intact, extended to the tables: the survivors' records are unchanged, the invariant still
+    holds, and no table pointer of a survivor designates memory of the destroyed context *)
+Theorem destroy_leaves_others_intact_tables : forall ncore w j cj, TInv w -> tcx w j = Some cj ->
+  let w' := fst (tstep ncore w (TDestroy j)) in
+  tcx w' j = None /\ (forall i, i <> j -> tcx w' i = tcx w i) /\ TInv w' /\
+  (forall i ci a, i <> j -> tcx w i = Some ci -> In a (ptrs ci) -> owns ci a /\ ~ owns cj a).
+Proof. exact TabProofs.destroy_leaves_others_intact_tables. Qed.
+Print Assumptions destroy_leaves_others_intact_tables.
+
+(** up to addresses, the tables of context i after ANY interleaving are what i's own operations alone produce, and the
+    results i sees (type ids, buckets, lookups) are the same: what the harness compares (context in company == context alone) *)
+Theorem tables_noninterference : forall ncore pi i,
+  option_map proj (tcx (trun ncore pi tw0) i) = option_map proj (tcx (trun ncore (own_ops i pi) tw0) i).
+Proof. exact TabProofs.tables_noninterference. Qed.
+Print Assumptions tables_noninterference.
+
+Theorem table_results_noninterference : forall ncore pi i,
+  tresults ncore i pi tw0 = tresults ncore i (own_ops i pi) tw0.
+Proof. exact TabProofs.results_noninterference. Qed.
+Print Assumptions table_results_noninterference.
+End T.
+
+(* ------------------------------------------------------------------ round 3: signal delivery (model C13/Sig.v) *)
+Module S.
+Import C13.Sig C13.SigProofs.
+
+Theorem signals_invariant : forall pi, SInv (srun pi sw0).
+Proof. exact SigProofs.signals_invariant. Qed.
+Print Assumptions signals_invariant.
+
+(** after ANY history: raise a signal whose registering context lives, let that context run: its handler ran, and no
+    other context, route or disposition changed *)
+Theorem signal_reaches_registrant : forall pi s i c,
+  let w := srun pi sw0 in
+  sdisp w s = DHandler -> sroute w s = Some i -> scx w i = Some c ->
+  let w1 := fst (sstep w (SRaise s)) in
+  let w2 := fst (sstep w1 (SRun i)) in
+  snd (sstep w (SRaise s)) = true /\
+  (forall j, j <> i -> scx w2 j = scx w j) /\
+  (forall s', sroute w2 s' = sroute w s' /\ sdisp w2 s' = sdisp w s') /\
+  exists c2 pre, scx w2 i = Some c2 /\ pending c2 = [] /\ handlers c2 = handlers c /\ got c2 = pre ++ got c /\ In s pre.
+Proof. exact SigProofs.signal_reaches_registrant. Qed.
+Print Assumptions signal_reaches_registrant.
+
+(** the documented limitation, precisely: registering s in j re-routes s to j; different signals are independent *)
+Theorem install_reroutes_only_that_signal : forall w j s cj,
+  scx w j = Some cj ->
+  let w' := fst (sstep w (SInstall j s)) in
+  sroute w' s = Some j /\ sdisp w' s = DHandler /\
+  (forall s', s' <> s -> sroute w' s' = sroute w s' /\ sdisp w' s' = sdisp w s') /\
+  (forall i, i <> j -> scx w' i = scx w i).
+Proof. exact SigProofs.install_reroutes_only_that_signal. Qed.
+Print Assumptions install_reroutes_only_that_signal.
+
+Theorem raise_touches_only_routed : forall w s j,
+  sroute w s <> Some j ->
+  let w' := fst (sstep w (SRaise s)) in
+  scx w' j = scx w j /\ (forall s', sroute w' s' = sroute w s' /\ sdisp w' s' = sdisp w s').
+Proof. exact SigProofs.raise_touches_only_routed. Qed.
+Print Assumptions raise_touches_only_routed.
+
+(** over scenario histories: whatever signal shows up in a context (handler log, pending mask, handler vector), that
+    context installed a handler for it itself earlier in the history *)
+Theorem only_own_signals_observed : forall pi i c s,
+  scx (srun pi sw0) i = Some c -> In s (got c) \/ In s (pending c) \/ In s (handlers c) -> In (SInstall i s) pi.
+Proof. exact SigProofs.only_own_signals_observed. Qed.
+Print Assumptions only_own_signals_observed.
+End S.
